@@ -792,6 +792,26 @@ pub fn gen_struct(rng: &mut Rng, class: Class) -> Item {
     item
 }
 
+/// The name of a container type no trait instruction mentions: mostly a bare identifier, one
+/// time in three a qualified path of 2-7 segments of seeded length (diagnostics quote the
+/// path; anything that depends on its length or its number of segments needs long ones).
+fn unknown_type_name(rng: &mut Rng, stem: &str) -> String {
+    let last = format!("{}{}", stem, rng.below(4));
+    if !rng.chance(1, 3) {
+        return last;
+    }
+    const SEGS: [&str; 12] = ["crate", "self", "super", "services", "billing", "dto", "v1", "api", "m", "internal_models_generated", "x", "wire"];
+    let n = rng.range(1, 6);
+    let mut segs: Vec<String> = Vec::new();
+    for i in 0..n {
+        let s = if i == 0 { *rng.pick(&SEGS) } else { *rng.pick(&SEGS[3..]) };
+        segs.push(s.to_string());
+    }
+    segs.push(last);
+    let lead = if segs[0] != "crate" && segs[0] != "self" && segs[0] != "super" && rng.chance(1, 4) { "::" } else { "" };
+    format!("{}{}", lead, segs.join("::"))
+}
+
 /// What `#[o2o(allow_unknown)]` silences: bare instructions that belong elsewhere (the type
 /// is accepted *because* of the flag).
 fn add_silenced_instructions(rng: &mut Rng, item: &mut Item) {
@@ -1060,9 +1080,9 @@ pub fn inject_misuse(rng: &mut Rng, item: &mut Item, which: usize) -> &'static s
             }
             "type:near-duplicate-unknown-types"
         },
-        17 => ty!("type:ghosts-unknown-type", format!("ghosts(Unknown{}| a: {{ 1 }})", rng.below(4))),
-        18 => ty!("type:where-unknown-type", format!("where_clause(Unknown{}| T: Clone)", rng.below(4))),
-        19 => ty!("type:child_parents-unknown-type", format!("child_parents(Unknown{}| p: P)", rng.below(4))),
+        17 => ty!("type:ghosts-unknown-type", format!("ghosts({}| a: {{ 1 }})", unknown_type_name(rng, "Unknown"))),
+        18 => ty!("type:where-unknown-type", format!("where_clause({}| T: Clone)", unknown_type_name(rng, "Unknown"))),
+        19 => ty!("type:child_parents-unknown-type", format!("child_parents({}| p: P)", unknown_type_name(rng, "Unknown"))),
         20 => {
             item.type_attrs.push("#[ghosts(d1: { 1 })]".into());
             item.type_attrs.push("#[ghosts(d2: { 2 })]".into());
@@ -1112,7 +1132,7 @@ pub fn inject_misuse(rng: &mut Rng, item: &mut Item, which: usize) -> &'static s
         32 => mem!("member:pattern", if item.is_enum { "parent".to_string() } else { "pattern(1 | 2)".to_string() }),
         33 => mem!("member:type_hint", if item.is_enum { "literal(Nope| 3)".to_string() } else { "type_hint(as {})".to_string() }),
         34 => mem!("member:ghosts", if item.is_enum { "pattern(Nope| _)".to_string() } else { format!("{}(g: {{ 1 }})", rng.pick(&["ghosts", "ghosts_owned", "ghosts_ref"])) }),
-        35 => mem!("member:dedicated-unknown", format!("{}(Stranger{}| zz)", rng.pick(&["map", "from", "into", "ghost", "child"]), rng.below(4))),
+        35 => mem!("member:dedicated-unknown", format!("{}({}| zz)", rng.pick(&["map", "from", "into", "ghost", "child"]), unknown_type_name(rng, "Stranger"))),
         36 => mem!("member:ghost-no-default", "ghost".to_string()),
         37 => mem!("member:child-without-child_parents", format!("child(lonely{}.path)", rng.below(3))),
         38 => mem!("member:permeating-repeat", "repeat(permeate())".to_string()),
